@@ -370,6 +370,8 @@ def run(spec, ctx):
         # list literals on either side of the membership operators, with repeated and look-alike items
         for lst in ("[1, 1]", "[1, 2, 1]", "['a', 'a']", "[1, 1.0]", "[1, true]", "[null, null]", "[1]", "[]", "['a', \"a\"]", "[0, -0]", "[1e0, 1]"):
             texts += ["$[?%s in @.a]" % lst, "$[?@.a contains %s]" % lst, "$[?@.a in %s]" % lst, "$[?%s contains @.a]" % lst, "$[?%s == @.a]" % lst, "$[?@.a != %s]" % lst, "$..[?%s in @]" % lst]
+        # filter-context queries whose member names contain the other identifiers' characters, and root queries nested in them
+        texts += ["$[?@.a == _['max$']]", "$[?@.a == _['max_']]", "$[?@.a == _['max$'] || @.a == _['max_']]", "$[?_['$'] == @.a]", "$[?_.list[?@ == $[0].a]]", "$[?count(_.list[?@ == $[0].b]) == 1]", "$[?_['max$'] == @.b && $[0].b == _['max$']]"]
         texts += ["$[?length(^) == 1 && length($) == 2]", "$[?length($) == 2 && length(^) == 1]", "$[?^ == $]", "$[?$ == ^]", "$[?_ == @ || ^ == @]", "^[?length(^) == 1]", "^[?length($) == 2]", "$[?count(^) == count($)]"]
         docs = POOL + [[5, 6], [[5, 6]], {"a": [5, 6]}, [5]] + [[{"a": [[1, 1], [2]]}, {"a": [[1], [2]]}, {"a": [1, 1]}, {"a": [1]}, {"a": 1}, {"a": [["a", "a"]]}, {"a": [["a"]]}, {"a": [[1, 2, 1]]}, {"a": [[1, 2]]}, {"a": [[1, 1.0]]}, {"a": [[None, None], [None]]}, {"a": [[0, 0]]}, {"a": [[]]}]] + [[{"a": v, "b": 1, "c": 0} for v in (1, 2, "x", "a'b", 'a"b', "a\\b", True, False, None, 100.0, 1e20, 1e-7, 0, -0.0, 1.5, 1500.0, "x\ny", "xzy")]]
         for t in texts:
